@@ -81,6 +81,7 @@ class RHSemantics(object):
         ev = Evaluator(ctx, self.space)
         self.ev = ev
         ev.construct_hook = self.construct_hook
+        ev.event_dom = True
         ev.method_hook = self.method_hook
         self.faults = []
         st = ev.new_state()
